@@ -46,6 +46,8 @@ def classify(op, c, m):
         return "same"
     if kind == "fix" and m == "fix skip" and c.startswith("fix "):
         return "same"
+    if kind == "numas" and m == "numas skip" and c.startswith("numas ") and c.split()[1].isdigit():
+        return "same"
     return "diff"
 
 
@@ -95,7 +97,9 @@ ENGINE = SynEngine("synthetic", include_c=("topology-synthetic",), stateful=Fals
                    distinct_key=lambda op, c: " ".join(op.split()[:3])[:200] + "|" + c[:200],
                    rule="per generated description (typed/untyped grammar, 122..128 levels, token mutations, boundary numbers, "
                         "token alphabet, raw bytes, index notations): init on a junk-filled level array + set_synthetic vs `parse`; "
-                        "if accepted and small: public-API dump -> wfCheck + comparison with `buildTopo`; export_synthetic for "
+                        "if accepted and small: public-API dump -> wfCheck + NUMA census + comparison with `buildTopo`, under the historic "
+                        "filters (I-caches, MemCache KEEP_ALL) and under 0-2 generated type-filter configurations (hex@F tokens); `numas` = "
+                        "live NUMA census through the public API; export_synthetic for "
                         "16 flag words x buffer lengths (all of 0..need+1 for a third of the topologies) vs exportChunks/emitAll; "
                         "export/reload/export fixpoint; distinct = distinct (op, flags/cap, C answer)")
 
